@@ -59,6 +59,7 @@ import (
 	"fmt"
 	"io"
 	"os"
+	"sync"
 	"time"
 
 	AppCore "github.com/goblimey/go-ntrip/apps/appcore"
@@ -180,27 +181,46 @@ func HandleMessages(startTime time.Time, reader io.Reader, writer io.Writer, con
 
 	channels := make([]chan rtcm.Message, 0)
 
+	// The writers run in goroutines.  Wait for them before returning.
+	var writers sync.WaitGroup
+
 	messageChan := make(chan rtcm.Message)
-	go writeRTCMMessages(messageChan, writer)
+	writers.Add(1)
+	go func() {
+		defer writers.Done()
+		writeRTCMMessages(messageChan, writer)
+	}()
 	channels = append(channels, messageChan)
 
 	if config.DisplayMessages {
 		displayLogWriter :=
 			dailylogger.New(config.MessageLogDirectory, "rtcm.", ".txt")
 		displayChan := make(chan rtcm.Message)
-		go writeReadableMessages(displayChan, displayLogWriter)
+		writers.Add(1)
+		go func() {
+			defer writers.Done()
+			writeReadableMessages(displayChan, displayLogWriter)
+		}()
 		channels = append(channels, displayChan)
 	}
 	if config.RecordMessages {
 		messageLogWriter := dailylogger.New(config.MessageLogDirectory, "rtcmfilter.", ".rtcm")
 		rtcmChan := make(chan rtcm.Message)
-		go writeRTCMMessages(rtcmChan, messageLogWriter)
+		writers.Add(1)
+		go func() {
+			defer writers.Done()
+			writeRTCMMessages(rtcmChan, messageLogWriter)
+		}()
 		channels = append(channels, rtcmChan)
 	}
 
 	appCore := AppCore.New(config, channels)
 	appCore.HandleMessagesUntilEOF(startTime, bufferedReader)
 
-	// We only get to here if the handler stops.
-	close(messageChan)
+	// We only get to here if the handler stops.  Close all the channels
+	// and wait until the writers have written everything.
+	for i := range channels {
+		close(channels[i])
+	}
+	writers.Wait()
 }
